@@ -1,5 +1,6 @@
 (* C08 - identity constraints: ID/IDREF and unique/key/keyref are enforced exactly. *)
 From XV Require Import Base Identity IdentityProofs.
+From XV Require Import Scopes ScopesProofs.
 
 Theorem C08_unique : forall ts, unique_errors ts = [] <-> NoDup (qualified ts).
 Proof. exact unique_spec. Qed.
@@ -52,3 +53,16 @@ Example C08_last_table_refuted :
   ancestor_keyref_errors [[[1%Z]]; [[1%Z]]] [[Some 1%Z]] = [Dangling [1%Z]] /\
   last_table_keyref_errors [[[1%Z]]; [[1%Z]]] [[Some 1%Z]] = [].
 Proof. vm_compute. repeat split. Qed.
+
+(* a constraint on an element that can contain itself: the traversal with a stack of tables (elements.py after repo fix
+   8cf8a00) reports exactly the duplicates of every instance judged on the instance's own values *)
+Theorem C08_nested_scopes : forall s, run_stack s = spec s.
+Proof. exact stack_is_spec. Qed.
+Print Assumptions C08_nested_scopes.
+
+(* one counter per constraint, reset on entry and disabled on exit (the code before the fix), loses the duplicates that
+   follow a nested instance *)
+Theorem C08_single_counter_refuted :
+  exists s, spec s = 1 /\ run_stack s = 1 /\ snd (run_single s) = 0.
+Proof. exact single_counter_refuted. Qed.
+Print Assumptions C08_single_counter_refuted.
